@@ -100,12 +100,19 @@ def replay(ck, em, rec, rng):
     C = 2
     centres = r.normal(size=(C, D)) * 3
     X = centres[r.randint(0, C, size=n)] + r.normal(size=(n, D))
+    zero_block = None
+    if r.rand() < 0.3:
+        # one row block made of exactly-zero feature vectors (silence / padding frames): a block that is "all zero"
+        # is not an empty block
+        zero_block = int(r.randint(0, rb))
+        z0 = sum(comp[:zero_block])
+        X[z0:z0 + comp[zero_block]] = 0.0
     y = np.array([i % 2 for i in range(n)])
     r.shuffle(y)
     choices = flat_choices(rec["order"])
     isolate = mode == "Isolated"
     scn = {"rows": n, "features": D, "row_chunks": list(comp), "feature_chunks": list(fchunks), "mode": mode,
-           "updated": sorted(upd), "choices": choices, "seed": seed}
+           "updated": sorted(upd), "choices": choices, "seed": seed, "all_zero_row_block": zero_block}
 
     def sched():
         return ReplayScheduler(choices=choices, isolate=isolate)
@@ -277,6 +284,10 @@ def many_blocks(ck, em, rng, count):
         X = centres[lab] + r.normal(size=(n, D))
         cuts = np.sort(r.choice(np.arange(1, n), size=B - 1, replace=False))
         comp = tuple(int(v) for v in np.diff(np.concatenate([[0], cuts, [n]])))
+        if i % 3 == 1:
+            zb = int(r.randint(0, B))
+            z0 = int(sum(comp[:zb]))
+            X[z0:z0 + comp[zb]] = 0.0           # one block of exactly-zero rows
         Xd = da.from_array(X, chunks=(comp, D))
         scn = {"rows": n, "features": D, "row_blocks": B, "row_chunks": list(comp), "seed": seed}
         ck.replayed += 1
